@@ -64,3 +64,30 @@ Fixpoint nodupb (l : list N) : bool := match l with [] => true | x :: r => negb 
 
 Definition is_ev_data (x : obs) : bool := match x with OEvent EvData _ _ _ _ _ => true | _ => false end.
 Definition is_bind_event (o : obs) : bool := match o with OEvent EvBind _ _ _ _ _ => true | _ => false end.
+
+(* ---- a discovery reply completes the address of the node-management feature it came in through ----
+   (DeviceLocal.HandleEvent writes the device address into the shared address object).  The
+   monitors follow it in their specification registries: entries of connection p whose client
+   is that feature, made while it had no device part, carry the device address afterwards.
+   [wd] is the world copy before the reply; the result is the device address written, if any. *)
+Definition reply_accepted (p : N) (out : list obs) : bool :=
+  existsb (fun x => match x with OEvent EvDevice ChAdd q _ _ _ => N.eqb q p | _ => false end) out.
+
+Definition nm_completion (wd : st) (p : N) (m : disc_msg) (out : list obs) : option N :=
+  if reply_accepted p out then
+    match find_peer wd p with
+    | Some pe =>
+        match remote_feature pe (nm_addr None) with
+        | Some (_, rf) =>
+            match rf_dev rf with
+            | None => match dm_dev m with Some d => Some d | None => p_addr pe end
+            | Some _ => None
+            end
+        | None => None
+        end
+    | None => None
+    end
+  else None.
+
+Definition complete_cli (d : N) (a : faddr) : faddr :=
+  if eqb_faddr a (nm_addr None) then nm_addr (Some d) else a.
